@@ -179,8 +179,32 @@ func runC12(c *Ctx) {
 					nLook++
 				}
 			}
-			if len(names) >= 1 && idx != nil && isForwardRangeIndex(idx) && nLook == 1 {
-				if s0, ok := constString(names[0]); ok && s0 == pk.tag {
+			// ... or over a package-level table of tag names that only its initialiser writes
+			firstName := ""
+			if len(names) >= 1 {
+				firstName, _ = constString(names[0])
+			} else if u, ok := first.Call.Args[1].(*ssa.UnOp); ok && u.Op == token.MUL {
+				if ia, ok := u.X.(*ssa.IndexAddr); ok {
+					if g, ok := ia.X.(*ssa.Global); ok {
+						if tab := globalStringArray(w, g); len(tab) >= 1 {
+							idx = ia.Index
+							firstName = tab[0]
+						}
+					}
+				}
+			} else if ix, ok := first.Call.Args[1].(*ssa.Index); ok {
+				// ranging over the array value itself: a copy of the table read once before the loop
+				if ld, ok := ix.X.(*ssa.UnOp); ok && ld.Op == token.MUL {
+					if g, ok := ld.X.(*ssa.Global); ok {
+						if tab := globalStringArray(w, g); len(tab) >= 1 {
+							idx = ix.Index
+							firstName = tab[0]
+						}
+					}
+				}
+			}
+			if firstName != "" && idx != nil && isForwardRangeIndex(idx) && nLook == 1 {
+				if firstName == pk.tag {
 					// the hit is returned: a return of the looked-up value dominated by ok, and the loop has no other early exit
 					for _, r := range returnsOf(mk) {
 						if e, ok := retVals(r)[0].(*ssa.Extract); ok && e.Tuple == ssa.Value(first) && e.Index == 0 {
@@ -1095,4 +1119,51 @@ func c12PtrValuedFlagArm(c *Ctx, rule string) {
 		}
 		c.check(found, rule, rel, pos, "a flag whose value is a pointer to the field's own type sets the field from its pointee", "the Visit callback has no arm for a flag whose value is a pointer to the field's own (non-pointerified) type: a text-unmarshalable leaf of slice or map kind (net.IP) given on the command line is rejected as 'not convertible' and can never be set")
 	}
+}
+
+// globalStringArray: the elements of a package-level array of strings, when every element is stored a constant by the
+// package initialiser and nothing else writes the array.
+func globalStringArray(w *World, g *ssa.Global) []string {
+	pt, ok := g.Type().(*types.Pointer)
+	if !ok {
+		return nil
+	}
+	arr, ok := pt.Elem().Underlying().(*types.Array)
+	if !ok || arr.Len() > 16 {
+		return nil
+	}
+	out := make([]string, arr.Len())
+	set := 0
+	for _, f := range w.Funcs {
+		isInit := f.Name() == "init" && f.Pkg == g.Pkg
+		for _, i := range allInstrs(f) {
+			switch x := i.(type) {
+			case *ssa.IndexAddr:
+				if x.X != ssa.Value(g) {
+					continue
+				}
+				for _, r := range *x.Referrers() {
+					st, isStore := r.(*ssa.Store)
+					if !isStore || st.Addr != ssa.Value(x) {
+						continue
+					}
+					k, okK := constInt(x.Index)
+					sv, okS := constString(st.Val)
+					if !isInit || !okK || !okS || k < 0 || k >= arr.Len() {
+						return nil
+					}
+					out[k] = sv
+					set++
+				}
+			case *ssa.Store:
+				if x.Addr == ssa.Value(g) {
+					return nil
+				}
+			}
+		}
+	}
+	if set != int(arr.Len()) {
+		return nil
+	}
+	return out
 }
